@@ -44,11 +44,13 @@ class Fn:
         self.locals = []      # [(name, ctype)] in declaration order
         self.loops = 0
         self.calls = []       # cnames called (repo functions)
+        self.calldecls = {}   # cname -> declaration node
         self.libcalls = []    # library stubs called
         self.src = None       # file:line
         self.params = []
         self.ret = None
         self.rules = {}
+        self.loopinfo = {}    # loop ordinal -> facts about generated range-for loops
 
 
 class Lower:
@@ -591,6 +593,7 @@ class Lower:
             df = self.ast.decl2def.get(d['id'], d)
             cn = self.cname(df)
             self.cur.calls.append(cn)
+            self.cur.calldecls[cn] = df
             return '%s(%s)' % (cn, ', '.join(self.args_for(df, args)))
         return self.lib_free_call(name, d, args, n)
 
@@ -608,6 +611,7 @@ class Lower:
             df = self.ast.decl2def.get(d['id'], d)
             cn = self.cname(df)
             self.cur.calls.append(cn)
+            self.cur.calldecls[cn] = df
             return '%s(%s)' % (cn, ', '.join([optr] + self.args_for(df, args)))
         return self.lib_method(ocls, ot, f['name'], optr, oe, d, args, n)
 
@@ -730,6 +734,7 @@ class Lower:
             df = self.ast.decl2def.get(d['id'], d)
             cn = self.cname(df)
             self.cur.calls.append(cn)
+            self.cur.calldecls[cn] = df
             if df.get('kind') == 'CXXMethodDecl':
                 return '%s(%s)' % (cn, ', '.join([self.addr(self.ex(a0))] + self.args_for(df, args[1:])))
             return '%s(%s)' % (cn, ', '.join(self.args_for(df, args)))
@@ -919,6 +924,7 @@ class Lower:
                 raise LowerError("constructor of %s with signature %r not found" % (rn, ctor))
             cn = self.cname(ctor_decl)
             self.cur.calls.append(cn)
+            self.cur.calldecls[cn] = ctor_decl
             return '%s(%s)' % (cn, ', '.join(self.args_for(ctor_decl, args)))
         if cls == 'handle' or cls == 'function':
             raise LowerError("construction of library type %r" % t)
@@ -1279,6 +1285,7 @@ class Lower:
         lt = parse_type(qt(loopvar))
         mark = self.loop_marker()
         rp = self.addr(re_)
+        self.cur.loopinfo[self.cur.loops] = {'kind': 'range', 'counter': i, 'seq': self.deref(rp), 'elem': lname, 'elemtype': ect, 'm': m}
         out.append(ind + '{')
         out.append('%s  unsigned long %s = 0;' % (ind, i))
         out.append('%s  for (; %s < %s__size(%s); %s++) %s' % (ind, i, m, rp, i, mark))
